@@ -113,7 +113,7 @@ def work(item):
     ex_all = Explorer()
     out = []
     for banks_per_slot in banks_list:
-        ex = Explorer()
+        ex = Explorer(max_paths=1500, budget_s=8, max_cex=12)
         ex.run(make_body(flav_name, cls_names, banks_per_slot))
         ex_all.stats.add(ex.stats)
         ex_all.aborts += ex.aborts
@@ -193,12 +193,12 @@ def main(tier, seed):
     for r in pmap(work, items):
         rep.merge_worker("layout", r)
     rep.section("layout", None, items=len(items))
-    ex = Explorer()
+    ex = Explorer(max_paths=3000, budget_s=90)
     ex.run(make_body("nv", ("ControlledRotXInstruction",), [(2, 2)], falsify=True))
     rep.witness("layout with reference opcode+1", any(c.label == "opcode" for c in ex.cexs))
 
     def one():
         if codec.MODEL:
-            Explorer().run(make_body("vanilla", ("StoreInstruction", "WaitAllInstruction"), [(0, 1), (2, 3)]))
+            Explorer(max_paths=4, budget_s=30).run(make_body("vanilla", ("StoreInstruction", "WaitAllInstruction"), [(0, 1), (2, 3)]))
     rep.functions_encoded |= trace_functions(one)
     return rep.finish(replay)
